@@ -49,17 +49,25 @@ impl Registry {
 /// Node value: `p` is the priority (the only thing comparisons look at),
 /// `id` identifies the allocation for the drop registry.
 pub struct NVal {
-    pub p: i32,
+    /// interior-mutable (the crate's Dijkstra idiom updates priorities from a for_each closure); atomic so that
+    /// the sync flavours can share the value between threads
+    p: std::sync::atomic::AtomicI32,
     pub id: u32,
     reg: Option<Arc<Registry>>,
 }
 impl NVal {
     pub fn plain(p: i32) -> NVal {
-        NVal { p, id: u32::MAX, reg: None }
+        NVal { p: p.into(), id: u32::MAX, reg: None }
+    }
+    pub fn p(&self) -> i32 {
+        self.p.load(std::sync::atomic::Ordering::Relaxed)
+    }
+    pub fn set_p(&self, v: i32) {
+        self.p.store(v, std::sync::atomic::Ordering::Relaxed)
     }
     pub fn tracked(p: i32, id: u32, reg: &Arc<Registry>) -> NVal {
         reg.inc(id);
-        NVal { p, id, reg: Some(reg.clone()) }
+        NVal { p: p.into(), id, reg: Some(reg.clone()) }
     }
 }
 impl Clone for NVal {
@@ -67,7 +75,7 @@ impl Clone for NVal {
         if let Some(r) = &self.reg {
             r.inc(self.id);
         }
-        NVal { p: self.p, id: self.id, reg: self.reg.clone() }
+        NVal { p: self.p().into(), id: self.id, reg: self.reg.clone() }
     }
 }
 impl Drop for NVal {
@@ -79,33 +87,33 @@ impl Drop for NVal {
 }
 impl PartialEq for NVal {
     fn eq(&self, o: &NVal) -> bool {
-        self.p == o.p
+        self.p() == o.p()
     }
 }
 impl Eq for NVal {}
 impl PartialOrd for NVal {
     fn partial_cmp(&self, o: &NVal) -> Option<std::cmp::Ordering> {
-        Some(self.p.cmp(&o.p))
+        Some(self.p().cmp(&o.p()))
     }
 }
 impl Ord for NVal {
     fn cmp(&self, o: &NVal) -> std::cmp::Ordering {
-        self.p.cmp(&o.p)
+        self.p().cmp(&o.p())
     }
 }
 impl fmt::Display for NVal {
     fn fmt(&self, f: &mut fmt::Formatter) -> fmt::Result {
-        write!(f, "{}", self.p)
+        write!(f, "{}", self.p())
     }
 }
 impl fmt::Debug for NVal {
     fn fmt(&self, f: &mut fmt::Formatter) -> fmt::Result {
-        write!(f, "NVal({})", self.p)
+        write!(f, "NVal({})", self.p())
     }
 }
 impl Serialize for NVal {
     fn serialize<S: Serializer>(&self, s: S) -> Result<S::Ok, S::Error> {
-        s.serialize_i32(self.p)
+        s.serialize_i32(self.p())
     }
 }
 impl<'de> Deserialize<'de> for NVal {
